@@ -635,6 +635,8 @@ def run(ctx):
         'frame size deferred, variable operands resolved at assembly',
         'STATIC variables are routine-qualified',
         'one cell per parameter',
+        'element addressing is a mixed-radix form over the checked bounds '
+        'and stays inside the reserved storage (polynomial domain)',
     ]
     ctx.not_decided = ['disjointness for concrete declaration shapes, '
                        'by-reference aliasing at run time, fresh locals per '
@@ -645,11 +647,18 @@ def run(ctx):
     deferred_frame_size(ctx)
     static_naming(ctx)
     param_cells(ctx)
+    from .. import strides
+    strides.check_cpu_side(ctx, 'C04',
+                           4 if ctx.tier == 'thorough' else 3)
     return ('Agreement of the layout constants and index arithmetic across '
             'the sites that re-derive them: header offsets are extracted as '
             'affine forms over (base, dimension) and compared with one '
             'header map; the generated read/readidx/deref families are '
             'checked to write the default where they read; slot and size '
             'functions are checked to walk the same maps in the same '
-            'order. Does not decide disjointness for concrete programs or '
-            'run-time aliasing.')
+            'order; the element address computed by _exec_arridx and the '
+            'sizes reserved by get_type_size / Array.__init__ are obtained '
+            'as polynomials over symbolic bounds by abstract interpretation '
+            'and checked for the mixed-radix (injective) form and for '
+            'capacity, ranks 1..3 (4 at thorough). Does not decide '
+            'disjointness for concrete programs or run-time aliasing.')
